@@ -739,7 +739,7 @@ func (vr *voterecords) vote(
 		}
 	}
 
-	switch _, found, err := vr.getSuffrage(); {
+	switch suf, found, err := vr.getSuffrage(); {
 	case err != nil:
 		return false, false, errors.WithMessage(err, "vote")
 	case !found:
@@ -747,6 +747,17 @@ func (vr *voterecords) vote(
 
 		return true, false, nil
 	default:
+		// NOTE same check with countFromBallots(); signer should be the
+		// suffrage node and it's expels should be valid in suffrage.
+		if suf != nil {
+			if err := vr.isValidBallot(signfact, suf); err != nil {
+				delete(vr.vps, node.String())
+				delete(vr.expels, node.String())
+
+				return false, false, nil
+			}
+		}
+
 		vr.voted[node.String()] = signfact
 
 		return true, true, nil
